@@ -1,3 +1,527 @@
-import Whv.Model.Gov
+import Whv.Lemmas.Gov
+/-!
+# C15 — governance requests become exactly the VAA the contracts parse, or are rejected
+
+* Go side: `Whv.Gov` (`Whv/Model/Gov.lean`): the nine request → payload conversions of `adminserver.go` with their
+  validation, the serializers of `payloads.go`, `CreateGovernanceVAA`, the loop and dispatch of `InjectGovernanceVAA`
+  — as REPAIRED by `/verif/fixes/C15-governance-range-checks.diff`; tied to the real code by the differential run of
+  `checks/c15.py` on every run.
+* Contract side: `Whv.Gov.Ral`: the Ralph governance parsers, whose slice bounds, action bytes, module constants and
+  `size!(payload)` equations are the constants of `Whv.Gen.C15`, re-extracted from the `.ral` sources on every run.
+  If a contract offset moves, `Gen.C15` changes and the theorems below stop checking.
+
+Per kind `k`: `c15_k_layout` (accepted ⇒ payload = module(32) ‖ action ‖ fields, each field at the slice the parser reads,
+total length = the parser's size equation) and `c15_k_lossless` (accepted ⇒ the parser recovers every requested value:
+nothing truncated, nothing wrapped).  Then: `c15_spec_sound` (the executable Spec the driver evaluates on the
+implementation's payloads holds of every accepted request), `c15_no_panic`, `c15_pure` / `c15_same_digest`,
+`c15_accept_or_reject`, `c15_injected_good`.
+-/
 namespace Whv.C15
+open Whv Whv.Gov
+
+private theorem header_slices (m rest : Bytes) (act : Nat) (hm : m.length = 32) :
+    Ral.slice (m ++ (be 1 act ++ rest)) Gen.C15.moduleSlice = some m ∧
+    Ral.slice (m ++ (be 1 act ++ rest)) Gen.C15.actionSlice = some (be 1 act) := by
+  constructor
+  · have := slice_mid [] m (be 1 act ++ rest) 0 32 rfl (by simp [hm])
+    simpa [Gen.C15.moduleSlice] using this
+  · have := slice_mid m (be 1 act) rest 32 33 hm (by simp)
+    simpa [Gen.C15.actionSlice] using this
+
+/-! ## UpdateMessageFee (core, action 3) -/
+
+theorem c15_messageFee_layout (fee : Str) (p : Bytes) (h : updateMessageFeePayload fee = .ok p) :
+    ∃ b, hexDecode fee = some b ∧ b.length = 32 ∧
+      p = coreModule ++ (be 1 Gen.C15.actNewMessageFee ++ b) ∧
+      Ral.slice p Gen.C15.moduleSlice = some coreModule ∧
+      Ral.slice p Gen.C15.actionSlice = some (be 1 Gen.C15.actNewMessageFee) ∧
+      Ral.slice p Gen.C15.feeValue = some b ∧
+      p.length = Gen.C15.feeSize := by
+  obtain ⟨b, hb, hl, rfl⟩ := fee_ok h
+  obtain ⟨h1, h2⟩ := header_slices coreModule b 3 coreModule_length
+  refine ⟨b, hb, hl, rfl, h1, h2, ?_, ?_⟩
+  · exact slice_3of3 _ _ _ 33 65 (by simp [coreModule_length]) (by simp [hl])
+  · simp [Gen.C15.feeSize, coreModule_length, hl]
+
+theorem c15_messageFee_lossless (fee : Str) (p : Bytes) (h : updateMessageFeePayload fee = .ok p) :
+    ∃ b, hexDecode fee = some b ∧ b.length = 32 ∧ Ral.parseMessageFee p = some (unbe b) := by
+  obtain ⟨b, hb, hl, hp, _, _, h3, h4⟩ := c15_messageFee_layout fee p h
+  refine ⟨b, hb, hl, ?_⟩
+  have hh : Ral.header Gen.C15.coreModule Gen.C15.actNewMessageFee p = true := by
+    rw [hp, ← unbe_coreModule]; exact header_ok _ _ _ coreModule_length
+  simp [Ral.parseMessageFee, hh, h3, h4]
+
+/-- 64 hex digits `00…0010` (fee 16). -/
+def sampleFee : Str := List.replicate 61 48 ++ [49, 48, 48]
+example : ∃ p, updateMessageFeePayload sampleFee = .ok p := ⟨_, rfl⟩
+
+/-! ## TransferFee (core, action 4) -/
+
+theorem c15_transferFee_layout (amount recipient : Str) (p : Bytes) (h : transferFeePayload amount recipient = .ok p) :
+    ∃ a r, hexDecode amount = some a ∧ hexDecode recipient = some r ∧ a.length = 32 ∧ r.length = 32 ∧
+      p = coreModule ++ (be 1 Gen.C15.actTransferFee ++ (a ++ r)) ∧
+      Ral.slice p Gen.C15.moduleSlice = some coreModule ∧
+      Ral.slice p Gen.C15.actionSlice = some (be 1 Gen.C15.actTransferFee) ∧
+      Ral.slice p Gen.C15.tfAmount = some a ∧
+      Ral.slice p Gen.C15.tfRecipient = some r ∧
+      p.length = Gen.C15.tfSize := by
+  obtain ⟨a, r, ha, hr, hla, hlr, rfl⟩ := transferFee_ok h
+  obtain ⟨h1, h2⟩ := header_slices coreModule (a ++ r) 4 coreModule_length
+  refine ⟨a, r, ha, hr, hla, hlr, rfl, h1, h2, ?_, ?_, ?_⟩
+  · exact slice_3of4 _ _ _ _ 33 65 (by simp [coreModule_length]) (by simp [hla])
+  · exact slice_4of4 _ _ _ _ 65 97 (by simp [coreModule_length, hla]) (by simp [hlr])
+  · simp [Gen.C15.tfSize, coreModule_length, hla, hlr]
+
+theorem c15_transferFee_lossless (amount recipient : Str) (p : Bytes) (h : transferFeePayload amount recipient = .ok p) :
+    ∃ a r, hexDecode amount = some a ∧ hexDecode recipient = some r ∧ a.length = 32 ∧ r.length = 32 ∧
+      Ral.parseTransferFee p = some (unbe a, r) := by
+  obtain ⟨a, r, ha, hr, hla, hlr, hp, _, _, h3, h4, h5⟩ := c15_transferFee_layout amount recipient p h
+  refine ⟨a, r, ha, hr, hla, hlr, ?_⟩
+  have hh : Ral.header Gen.C15.coreModule Gen.C15.actTransferFee p = true := by
+    rw [hp, ← unbe_coreModule]; exact header_ok _ _ _ coreModule_length
+  simp [Ral.parseTransferFee, hh, h3, h4, h5]
+
+example : ∃ p, transferFeePayload sampleFee (List.replicate 64 70) = .ok p := ⟨_, rfl⟩
+
+/-! ## GuardianSetUpgrade (core, action 2) -/
+
+theorem c15_guardianSet_layout (gs : List Guardian) (gsi : Nat) (p : Bytes) (hg : gsi < 2 ^ 32)
+    (h : guardianSetPayload gs gsi = .ok p) :
+    ∃ keys, keysOf gs = some keys ∧ keys.length = gs.length ∧ (∀ k ∈ keys, k.length = 20) ∧
+      0 < keys.length ∧ keys.length ≤ 19 ∧ gsi + 1 < 2 ^ 32 ∧
+      p = coreModule ++ (be 1 Gen.C15.actNewGuardianSet ++ (be 4 (gsi + 1) ++ (be 1 keys.length ++ keys.flatten))) ∧
+      Ral.slice p Gen.C15.moduleSlice = some coreModule ∧
+      Ral.slice p Gen.C15.actionSlice = some (be 1 Gen.C15.actNewGuardianSet) ∧
+      Ral.slice p Gen.C15.gsIndex = some (be 4 (gsi + 1)) ∧
+      Ral.slice p Gen.C15.gsCount = some (be 1 keys.length) ∧
+      Ral.slice p (Gen.C15.gsStoreFrom, p.length) = some (be 1 keys.length ++ keys.flatten) ∧
+      p.length = Gen.C15.gsSizeBase + keys.length * Gen.C15.gsSizeStride := by
+  obtain ⟨keys, hk, hl, hw, h0, h19, hidx, hp⟩ := guardianSet_ok h
+  have hlt : gsi + 1 < 2 ^ 32 := by omega
+  rw [Nat.mod_eq_of_lt hlt] at hp
+  subst hp
+  have hfl := flatten_length_const 20 keys hw
+  obtain ⟨h1, h2⟩ := header_slices coreModule (be 4 (gsi + 1) ++ (be 1 keys.length ++ keys.flatten)) 2 coreModule_length
+  refine ⟨keys, hk, hl, hw, by omega, by omega, hlt, rfl, h1, h2, ?_, ?_, ?_, ?_⟩
+  · exact slice_3of4 _ _ _ _ 33 37 (by simp [coreModule_length]) (by simp)
+  · exact slice_4of5 _ _ _ _ _ 37 38 (by simp [coreModule_length]) (by simp)
+  · exact slice_4of4 _ _ _ _ 37 _ (by simp [coreModule_length]) (by simp [coreModule_length]; omega)
+  · simp only [Gen.C15.gsSizeBase, Gen.C15.gsSizeStride, List.length_append, coreModule_length, be_length, hfl]
+    omega
+
+theorem c15_guardianSet_lossless (gs : List Guardian) (gsi : Nat) (p : Bytes) (hg : gsi < 2 ^ 32)
+    (h : guardianSetPayload gs gsi = .ok p) :
+    ∃ keys, keysOf gs = some keys ∧ keys.length = gs.length ∧ Ral.parseGuardianSet p = some (gsi + 1, keys) := by
+  obtain ⟨keys, hk, hl, hw, h0, h19, hlt, hp, _, _, h3, h4, h5, h6⟩ := c15_guardianSet_layout gs gsi p hg h
+  refine ⟨keys, hk, hl, ?_⟩
+  have hh : Ral.header Gen.C15.coreModule Gen.C15.actNewGuardianSet p = true := by
+    rw [hp, ← unbe_coreModule]; exact header_ok _ _ _ coreModule_length
+  have hn : unbe (be 1 keys.length) = keys.length := unbe_be_of_lt (by omega)
+  have hi : unbe (be 4 (gsi + 1)) = gsi + 1 := unbe_be_of_lt (by omega)
+  have hch : Ral.chunks Gen.C15.gsKeyStride Gen.C15.gsKeyWidth keys.length ((be 1 keys.length ++ keys.flatten).drop Gen.C15.gsKeyBase) = keys := by
+    have : (be 1 keys.length ++ keys.flatten).drop Gen.C15.gsKeyBase = keys.flatten ++ [] := by
+      simp [Gen.C15.gsKeyBase]
+    rw [this]
+    exact chunks_flatten 20 keys hw []
+  have hnz : ¬ (keys.length = 0 ∨ p.length ≠ Gen.C15.gsSizeBase + keys.length * Gen.C15.gsSizeStride) := by omega
+  unfold Ral.parseGuardianSet
+  simp only [hh, h3, h4, hn, hi, Bool.not_true, Bool.false_eq_true, if_false, if_neg hnz]
+  rw [← h6, h5]
+  simp only [hch]
+
+def sampleGuardians : List Guardian :=
+  [⟨[48, 120] ++ List.replicate 40 49, [97]⟩, ⟨List.replicate 40 65, [98]⟩]
+example : ∃ p, guardianSetPayload sampleGuardians 7 = .ok p := ⟨_, rfl⟩
+/-- the largest index that can still be upgraded from -/
+example : ∃ p, guardianSetPayload sampleGuardians (2 ^ 32 - 2) = .ok p := ⟨_, rfl⟩
+
+/-! ## ContractUpgrade (core, action 1) -/
+
+theorem c15_contractUpgrade_layout (s : Str) (p : Bytes) (h : contractUpgradePayload s = .ok p) :
+    ∃ b, hexDecode s = some b ∧
+      p = coreModule ++ (be 1 Gen.C15.actContractUpgrade ++ b) ∧
+      Ral.slice p Gen.C15.moduleSlice = some coreModule ∧
+      Ral.slice p Gen.C15.actionSlice = some (be 1 Gen.C15.actContractUpgrade) ∧
+      p.drop Gen.C15.cuStart = b ∧ Gen.C15.cuCodeLen.1 = Gen.C15.cuStart ∧
+      p.length = Gen.C15.cuStart + b.length := by
+  obtain ⟨b, hb, rfl⟩ := contractUpgrade_ok h
+  obtain ⟨h1, h2⟩ := header_slices coreModule b 1 coreModule_length
+  refine ⟨b, hb, rfl, h1, h2, ?_, rfl, ?_⟩
+  · simp [Gen.C15.cuStart, List.drop_append, coreModule_length]
+  · simp [Gen.C15.cuStart, coreModule_length]; omega
+
+theorem c15_contractUpgrade_lossless (s : Str) (p : Bytes) (h : contractUpgradePayload s = .ok p) :
+    ∃ b, hexDecode s = some b ∧ Ral.parseUpgrade Gen.C15.coreModule Gen.C15.actContractUpgrade p = some b := by
+  obtain ⟨b, hb, hp, _, _, h3, _, h5⟩ := c15_contractUpgrade_layout s p h
+  refine ⟨b, hb, ?_⟩
+  have hh : Ral.header Gen.C15.coreModule Gen.C15.actContractUpgrade p = true := by
+    rw [hp, ← unbe_coreModule]; exact header_ok _ _ _ coreModule_length
+  have : ¬ p.length < Gen.C15.cuStart := by omega
+  simp [Ral.parseUpgrade, hh, h3, this]
+
+example : ∃ p, contractUpgradePayload [48, 49, 97, 70] = .ok p := ⟨_, rfl⟩
+
+/-! ## TokenBridge RegisterChain (action 1; the module is part of the request) -/
+
+theorem c15_registerChain_layout (m : Str) (c : Nat) (e : Str) (p : Bytes) (h : registerChainPayload m c e = .ok p) :
+    ∃ b, hexDecode e = some b ∧ b.length = 32 ∧ m.length ≤ 32 ∧ c < 2 ^ 16 ∧
+      p = padModule m ++ (be 1 Gen.C15.actRegisterChain ++ (be 2 c ++ b)) ∧
+      Ral.slice p Gen.C15.moduleSlice = some (padModule m) ∧
+      Ral.slice p Gen.C15.actionSlice = some (be 1 Gen.C15.actRegisterChain) ∧
+      Ral.slice p Gen.C15.rcChain = some (be 2 c) ∧
+      Ral.slice p Gen.C15.rcBridge = some b ∧
+      p.length = Gen.C15.rcSize := by
+  obtain ⟨b, hb, hl, hm, hc, rfl⟩ := registerChain_ok h
+  have hpm := padModule_length hm
+  obtain ⟨h1, h2⟩ := header_slices (padModule m) (be 2 c ++ b) 1 hpm
+  refine ⟨b, hb, hl, hm, by omega, rfl, h1, h2, ?_, ?_, ?_⟩
+  · exact slice_3of4 _ _ _ _ 33 35 (by simp [hpm]) (by simp)
+  · exact slice_4of4 _ _ _ _ 35 67 (by simp [hpm]) (by simp [hl])
+  · simp [Gen.C15.rcSize, hpm, hl]
+
+theorem c15_registerChain_lossless (m : Str) (c : Nat) (e : Str) (p : Bytes) (h : registerChainPayload m c e = .ok p) :
+    ∃ b, hexDecode e = some b ∧ b.length = 32 ∧ Ral.parseRegisterChain (unbe m) p = some (c, b) := by
+  obtain ⟨b, hb, hl, hm, hc, hp, _, _, h3, h4, h5⟩ := c15_registerChain_layout m c e p h
+  refine ⟨b, hb, hl, ?_⟩
+  have hh : Ral.header (unbe m) Gen.C15.actRegisterChain p = true := by
+    rw [hp, ← unbe_padModule]; exact header_ok _ _ _ (padModule_length hm)
+  have hcv : unbe (be 2 c) = c := unbe_be_of_lt (by omega)
+  simp [Ral.parseRegisterChain, hh, h3, h4, h5, hcv]
+
+/-- The module name the Alephium token bridge expects is `"TokenBridge"`. -/
+def tokenBridgeName : Str := [0x54, 0x6f, 0x6b, 0x65, 0x6e, 0x42, 0x72, 0x69, 0x64, 0x67, 0x65]
+theorem c15_tokenBridge_name : unbe tokenBridgeName = Gen.C15.tokenBridgeModule ∧ padModule tokenBridgeName = tokenBridgeModule := by
+  decide
+example : ∃ p, registerChainPayload tokenBridgeName 65535 (List.replicate 64 102) = .ok p := ⟨_, rfl⟩
+
+/-! ## TokenBridge UpgradeContract (action 2) -/
+
+theorem c15_bridgeUpgrade_layout (m s : Str) (p : Bytes) (h : bridgeUpgradePayload m s = .ok p) :
+    ∃ b, hexDecode s = some b ∧ m.length ≤ 32 ∧
+      p = padModule m ++ (be 1 Gen.C15.actBridgeContractUpgrade ++ b) ∧
+      Ral.slice p Gen.C15.moduleSlice = some (padModule m) ∧
+      Ral.slice p Gen.C15.actionSlice = some (be 1 Gen.C15.actBridgeContractUpgrade) ∧
+      p.drop Gen.C15.cuStart = b ∧
+      p.length = Gen.C15.cuStart + b.length := by
+  obtain ⟨b, hb, hm, rfl⟩ := bridgeUpgrade_ok h
+  have hpm := padModule_length hm
+  obtain ⟨h1, h2⟩ := header_slices (padModule m) b 2 hpm
+  refine ⟨b, hb, hm, rfl, h1, h2, ?_, ?_⟩
+  · simp [Gen.C15.cuStart, List.drop_append, hpm]
+  · simp [Gen.C15.cuStart, hpm]; omega
+
+theorem c15_bridgeUpgrade_lossless (m s : Str) (p : Bytes) (h : bridgeUpgradePayload m s = .ok p) :
+    ∃ b, hexDecode s = some b ∧ Ral.parseUpgrade (unbe m) Gen.C15.actBridgeContractUpgrade p = some b := by
+  obtain ⟨b, hb, hm, hp, _, _, h3, h4⟩ := c15_bridgeUpgrade_layout m s p h
+  refine ⟨b, hb, ?_⟩
+  have hh : Ral.header (unbe m) Gen.C15.actBridgeContractUpgrade p = true := by
+    rw [hp, ← unbe_padModule]; exact header_ok _ _ _ (padModule_length hm)
+  have : ¬ p.length < Gen.C15.cuStart := by omega
+  simp [Ral.parseUpgrade, hh, h3, this]
+
+example : ∃ p, bridgeUpgradePayload tokenBridgeName [48, 49] = .ok p := ⟨_, rfl⟩
+
+/-! ## TokenBridge DestroyUnexecutedSequenceContracts (action 0xf0) -/
+
+theorem c15_destroy_layout (c : Nat) (seqs : List Nat) (p : Bytes) (h : destroyPayload c seqs = .ok p) :
+    c < 2 ^ 16 ∧ seqs.length < 2 ^ 16 ∧
+      p = tokenBridgeModule ++ (be 1 Gen.C15.actDestroy ++ (be 2 c ++ (be 2 seqs.length ++ (seqs.map (be 8)).flatten))) ∧
+      Ral.slice p Gen.C15.moduleSlice = some tokenBridgeModule ∧
+      Ral.slice p Gen.C15.actionSlice = some (be 1 Gen.C15.actDestroy) ∧
+      Ral.slice p Gen.C15.dsChain = some (be 2 c) ∧
+      Ral.slice p Gen.C15.dsCount = some (be 2 seqs.length) ∧
+      Ral.slice p (Gen.C15.dsPathsFrom, p.length) = some (seqs.map (be 8)).flatten ∧
+      p.length = Gen.C15.dsSizeBase + seqs.length * Gen.C15.dsSizeStride := by
+  obtain ⟨hc, hl, rfl⟩ := destroy_ok h
+  have hfl : ((seqs.map (be 8)).flatten).length = seqs.length * 8 := by
+    have := flatten_length_const 8 (seqs.map (be 8)) (by intro k hk; obtain ⟨s, _, rfl⟩ := List.mem_map.1 hk; simp)
+    simpa using this
+  obtain ⟨h1, h2⟩ := header_slices tokenBridgeModule (be 2 c ++ (be 2 seqs.length ++ (seqs.map (be 8)).flatten)) 0xf0 tokenBridgeModule_length
+  refine ⟨by omega, by omega, rfl, h1, h2, ?_, ?_, ?_, ?_⟩
+  · exact slice_3of4 _ _ _ _ 33 35 (by simp [tokenBridgeModule_length]) (by simp)
+  · exact slice_4of5 _ _ _ _ _ 35 37 (by simp [tokenBridgeModule_length]) (by simp)
+  · exact slice_5of5 _ _ _ _ _ 37 _ (by simp [tokenBridgeModule_length]) (by simp only [List.length_append, tokenBridgeModule_length, be_length]; omega)
+  · simp only [Gen.C15.dsSizeBase, Gen.C15.dsSizeStride, List.length_append, tokenBridgeModule_length, be_length, hfl]
+    omega
+
+theorem c15_destroy_lossless (c : Nat) (seqs : List Nat) (p : Bytes) (hw : ∀ s ∈ seqs, s < 2 ^ 64)
+    (h : destroyPayload c seqs = .ok p) : Ral.parseDestroy p = some (c, seqs) := by
+  obtain ⟨hc, hl, hp, _, _, h3, h4, h5, h6⟩ := c15_destroy_layout c seqs p h
+  have hh : Ral.header Gen.C15.tokenBridgeModule Gen.C15.actDestroy p = true := by
+    rw [hp, ← unbe_tokenBridgeModule]; exact header_ok _ _ _ tokenBridgeModule_length
+  have hcv : unbe (be 2 c) = c := unbe_be_of_lt (by omega)
+  have hn : unbe (be 2 seqs.length) = seqs.length := unbe_be_of_lt (by omega)
+  have hch : Ral.chunks Gen.C15.dsPathWidth Gen.C15.dsPathWidth seqs.length (seqs.map (be 8)).flatten = seqs.map (be 8) := by
+    have := chunks_flatten 8 (seqs.map (be 8)) (by intro k hk; obtain ⟨s, _, rfl⟩ := List.mem_map.1 hk; simp) []
+    simpa [Gen.C15.dsPathWidth] using this
+  unfold Ral.parseDestroy
+  simp only [hh, h3, h4, hn, hcv]
+  rw [← h6, h5]
+  simp [hch, map_unbe_be8 seqs hw]
+
+example : ∃ p, destroyPayload 65535 [0, 1, 2 ^ 64 - 1] = .ok p := ⟨_, rfl⟩
+
+/-! ## TokenBridge UpdateMinimalConsistencyLevel (action 0xf1) -/
+
+theorem c15_minConsistency_layout (l : Nat) (p : Bytes) (h : minConsistencyPayload l = .ok p) :
+    l < 2 ^ 8 ∧
+      p = tokenBridgeModule ++ (be 1 Gen.C15.actMinConsistency ++ be 1 l) ∧
+      Ral.slice p Gen.C15.moduleSlice = some tokenBridgeModule ∧
+      Ral.slice p Gen.C15.actionSlice = some (be 1 Gen.C15.actMinConsistency) ∧
+      Ral.slice p Gen.C15.clValue = some (be 1 l) ∧
+      p.length = Gen.C15.clSize := by
+  obtain ⟨hl, rfl⟩ := minConsistency_ok h
+  obtain ⟨h1, h2⟩ := header_slices tokenBridgeModule (be 1 l) 0xf1 tokenBridgeModule_length
+  refine ⟨by omega, rfl, h1, h2, ?_, ?_⟩
+  · exact slice_3of3 _ _ _ 33 34 (by simp [tokenBridgeModule_length]) (by simp)
+  · simp [Gen.C15.clSize, tokenBridgeModule_length]
+
+theorem c15_minConsistency_lossless (l : Nat) (p : Bytes) (h : minConsistencyPayload l = .ok p) :
+    Ral.parseMinConsistency p = some l := by
+  obtain ⟨hl, hp, _, _, h3, h4⟩ := c15_minConsistency_layout l p h
+  have hh : Ral.header Gen.C15.tokenBridgeModule Gen.C15.actMinConsistency p = true := by
+    rw [hp, ← unbe_tokenBridgeModule]; exact header_ok _ _ _ tokenBridgeModule_length
+  have hv : unbe (be 1 l) = l := unbe_be_of_lt (by omega)
+  simp [Ral.parseMinConsistency, hh, h3, h4, hv]
+
+example : ∃ p, minConsistencyPayload 255 = .ok p := ⟨_, rfl⟩
+
+/-! ## TokenBridge UpdateRefundAddress (action 0xf2) -/
+
+theorem c15_refundAddress_layout (s : Str) (p : Bytes) (h : refundAddressPayload s = .ok p) :
+    ∃ b, hexDecode s = some b ∧ b.length < 2 ^ 16 ∧
+      p = tokenBridgeModule ++ (be 1 Gen.C15.actRefundAddress ++ (be 2 b.length ++ b)) ∧
+      Ral.slice p Gen.C15.moduleSlice = some tokenBridgeModule ∧
+      Ral.slice p Gen.C15.actionSlice = some (be 1 Gen.C15.actRefundAddress) ∧
+      Ral.slice p Gen.C15.raLen = some (be 2 b.length) ∧
+      Ral.slice p (Gen.C15.raAddrFrom, p.length) = some b ∧
+      p.length = Gen.C15.raSizeBase + b.length * Gen.C15.raSizeStride := by
+  obtain ⟨b, hb, hl, rfl⟩ := refundAddress_ok h
+  obtain ⟨h1, h2⟩ := header_slices tokenBridgeModule (be 2 b.length ++ b) 0xf2 tokenBridgeModule_length
+  refine ⟨b, hb, by omega, rfl, h1, h2, ?_, ?_, ?_⟩
+  · exact slice_3of4 _ _ _ _ 33 35 (by simp [tokenBridgeModule_length]) (by simp)
+  · exact slice_4of4 _ _ _ _ 35 _ (by simp [tokenBridgeModule_length]) (by simp only [List.length_append, tokenBridgeModule_length, be_length]; omega)
+  · simp only [Gen.C15.raSizeBase, Gen.C15.raSizeStride, List.length_append, tokenBridgeModule_length, be_length]
+    omega
+
+theorem c15_refundAddress_lossless (s : Str) (p : Bytes) (h : refundAddressPayload s = .ok p) :
+    ∃ b, hexDecode s = some b ∧ Ral.parseRefundAddress p = some b := by
+  obtain ⟨b, hb, hl, hp, _, _, h3, h4, h5⟩ := c15_refundAddress_layout s p h
+  refine ⟨b, hb, ?_⟩
+  have hh : Ral.header Gen.C15.tokenBridgeModule Gen.C15.actRefundAddress p = true := by
+    rw [hp, ← unbe_tokenBridgeModule]; exact header_ok _ _ _ tokenBridgeModule_length
+  have hn : unbe (be 2 b.length) = b.length := unbe_be_of_lt (by omega)
+  unfold Ral.parseRefundAddress
+  simp only [hh, h3, hn]
+  rw [← h5, h4]
+  simp
+
+example : ∃ p, refundAddressPayload (List.replicate 66 48) = .ok p := ⟨_, rfl⟩
+
+/-! ## all kinds at once: the executable Spec holds of everything the model accepts -/
+
+/-- Whatever request the (repaired) conversion accepts, the contract-side parser of that kind accepts the payload and
+recovers every requested value — `specOk` is the very predicate the driver evaluates on the implementation's payloads. -/
+theorem c15_spec_sound (gsi : Nat) (pl : Payload) (p : Bytes) (hg : gsi < 2 ^ 32) (hw : pl.WF)
+    (h : convert gsi pl = .ok p) : specOk gsi pl p = true := by
+  cases pl with
+  | none => simp [convert] at h
+  | updateMessageFee fee =>
+    obtain ⟨b, hb, hl, hp⟩ := c15_messageFee_lossless fee p h
+    simp [specOk, hb, hl, hp]
+  | transferFee a r =>
+    obtain ⟨x, y, hx, hy, hlx, hly, hp⟩ := c15_transferFee_lossless a r p h
+    simp [specOk, hx, hy, hlx, hly, hp]
+  | guardianSet gs =>
+    obtain ⟨keys, hk, _, hp⟩ := c15_guardianSet_lossless gs gsi p hg h
+    simp [specOk, hk, hp]
+  | contractUpgrade s =>
+    obtain ⟨b, hb, hp⟩ := c15_contractUpgrade_lossless s p h
+    simp [specOk, hb, hp]
+  | registerChain m c e =>
+    obtain ⟨b, hb, hl, hp⟩ := c15_registerChain_lossless m c e p h
+    simp [specOk, hb, hl, hp]
+  | bridgeUpgrade m s =>
+    obtain ⟨b, hb, hp⟩ := c15_bridgeUpgrade_lossless m s p h
+    simp [specOk, hb, hp]
+  | destroy c seqs =>
+    have hp := c15_destroy_lossless c seqs p hw h
+    simp [specOk, hp]
+  | minConsistency l =>
+    have hp := c15_minConsistency_lossless l p h
+    simp [specOk, hp]
+  | refundAddress s =>
+    obtain ⟨b, hb, hp⟩ := c15_refundAddress_lossless s p h
+    simp [specOk, hb, hp]
+
+/-- The Spec is not vacuous: it rejects the payloads the unrepaired code produced for out-of-range requests
+(consistency level 300 encoded as 44; emitter chain 65538 encoded as 2). -/
+theorem c15_spec_rejects_wrapped :
+    specOk 0 (.minConsistency 300) (tokenBridgeModule ++ (be 1 0xf1 ++ be 1 300)) = false ∧
+    specOk 0 (.destroy 65538 [5]) (tokenBridgeModule ++ (be 1 0xf0 ++ (be 2 65538 ++ (be 2 1 ++ be 8 5)))) = false := by
+  decide
+
+/-! ## the handler: no panic, purity, accept-or-reject, envelope -/
+
+/-- No conversion panics, whatever the request (any module length, any field value, unset `oneof`). -/
+theorem c15_convert_no_panic (gsi : Nat) (pl : Payload) : convert gsi pl ≠ .panic := convert_ne_panic gsi pl
+
+private theorem injectOne_ne_panic (cfg : Cfg) (req : Req) (m : Msg) : injectOne cfg req m ≠ .error .panic := by
+  unfold injectOne
+  split
+  · simp
+  · split
+    · simp
+    · simp
+    · rename_i h; exact (convert_ne_panic _ _ h).elim
+
+private theorem injectLoop_ne_panic (cfg : Cfg) (req : Req) (ms : List Msg) : ∀ chan, (injectLoop cfg req ms chan).2 ≠ .panic := by
+  induction ms with
+  | nil => intro chan; simp [injectLoop]
+  | cons m ms ih =>
+    intro chan
+    unfold injectLoop
+    split
+    · exact ih _
+    · rename_i r hr
+      intro h
+      simp only at h
+      subst h
+      exact injectOne_ne_panic cfg req m hr
+
+/-- `InjectGovernanceVAA` never panics: for every configuration, request (of any size and field values) and history. -/
+theorem c15_no_panic (chan : List Vaa) (cfg : Cfg) (req : Req) : (injectFrom chan cfg req).2 ≠ .panic :=
+  injectLoop_ne_panic cfg req req.msgs chan
+
+private theorem injectLoop_chan (cfg : Cfg) (req : Req) (ms : List Msg) : ∀ chan,
+    injectLoop cfg req ms chan = (chan ++ (injectLoop cfg req ms []).1, (injectLoop cfg req ms []).2) := by
+  induction ms with
+  | nil => intro chan; simp [injectLoop]
+  | cons m ms ih =>
+    intro chan
+    unfold injectLoop
+    split
+    · rename_i v hv
+      rw [ih (chan ++ [v]), ih ([] ++ [v])]
+      simp
+    · simp
+
+/-- Purity: what a request injects and returns does not depend on what the service did before — it is a function of the
+configuration and the request only. -/
+theorem c15_pure (chan : List Vaa) (cfg : Cfg) (req : Req) :
+    injectFrom chan cfg req = (chan ++ (inject cfg req).1, (inject cfg req).2) :=
+  injectLoop_chan cfg req req.msgs chan
+
+/-- `SigningMsg` for an arbitrary hash `H` (Keccak-256 in the code, never modelled; see C04). -/
+def signingMsg (H : Bytes → Bytes) (v : Vaa) : Bytes := H (H (serializeBody v.body))
+
+/-- Two operators with the same configuration injecting the same request — whatever their nodes did before — push the
+same VAAs, get the same answer and therefore sign the same digests. -/
+theorem c15_same_digest (H : Bytes → Bytes) (chan₁ chan₂ : List Vaa) (cfg : Cfg) (req : Req) :
+    ((injectFrom chan₁ cfg req).1.drop chan₁.length).map (signingMsg H) =
+      ((injectFrom chan₂ cfg req).1.drop chan₂.length).map (signingMsg H) ∧
+    (injectFrom chan₁ cfg req).2 = (injectFrom chan₂ cfg req).2 := by
+  rw [c15_pure chan₁, c15_pure chan₂]
+  simp
+
+/-- What holds of every message/VAA pair the handler produces. -/
+def Good (cfg : Cfg) (req : Req) (m : Msg) (v : Vaa) : Prop :=
+  m.targetChain < 2 ^ 16 ∧
+  (∃ p, convert req.currentSetIndex m.payload = .ok p ∧
+        v = createGovernanceVaa cfg req.timestamp m.nonce m.sequence m.targetChain req.currentSetIndex p) ∧
+  envOk cfg req m v = true ∧
+  specOk req.currentSetIndex m.payload v.body.payload = true ∧
+  v.body.WF
+
+/-- `AllGood cfg req msgs sent`: the VAAs pair off with the first messages, and each pair is `Good`. -/
+def AllGood (cfg : Cfg) (req : Req) : List Msg → List Vaa → Prop
+  | _, [] => True
+  | [], _ :: _ => False
+  | m :: ms, v :: vs => Good cfg req m v ∧ AllGood cfg req ms vs
+
+private theorem injectOne_good (cfg : Cfg) (req : Req) (m : Msg) (v : Vaa) (hc : cfg.WF)
+    (hi : req.currentSetIndex < 2 ^ 32) (ht : req.timestamp < 2 ^ 32) (hm : m.WF)
+    (h : injectOne cfg req m = .ok v) : Good cfg req m v := by
+  unfold injectOne at h
+  split at h
+  · cases h
+  · rename_i htc
+    split at h
+    · rename_i p hp
+      have htc' : m.targetChain < 2 ^ 16 := by omega
+      rw [Nat.mod_eq_of_lt htc'] at h
+      cases h
+      obtain ⟨hs, hn, _, hpw⟩ := hm
+      refine ⟨htc', ⟨p, hp, rfl⟩, ?_, c15_spec_sound _ _ _ hi hpw hp, ?_⟩
+      · simp [envOk, createGovernanceVaa]
+      · obtain ⟨hcc, hce⟩ := hc
+        simp only [createGovernanceVaa, Body.WF]
+        refine ⟨by omega, by omega, by omega, by omega, hce, by omega, by omega⟩
+    · cases h
+    · cases h
+
+private theorem injectLoop_good (cfg : Cfg) (req : Req) (hc : cfg.WF) (hi : req.currentSetIndex < 2 ^ 32)
+    (ht : req.timestamp < 2 ^ 32) (ms : List Msg) (hm : ∀ m ∈ ms, m.WF) :
+    AllGood cfg req ms (injectLoop cfg req ms []).1 ∧
+    ((injectLoop cfg req ms []).2 = .ok → (injectLoop cfg req ms []).1.length = ms.length) ∧
+    (∀ c e, (injectLoop cfg req ms []).2 = .err c e → (injectLoop cfg req ms []).1.length < ms.length) := by
+  induction ms with
+  | nil => simp [injectLoop, AllGood]
+  | cons m ms ih =>
+    have ih' := ih (fun x hx => hm x (by simp [hx]))
+    unfold injectLoop
+    split
+    · rename_i v hv
+      have hg := injectOne_good cfg req m v hc hi ht (hm m (by simp)) hv
+      rw [injectLoop_chan cfg req ms ([] ++ [v])]
+      obtain ⟨f, hok, herr⟩ := ih'
+      refine ⟨?_, ?_, ?_⟩
+      · simp only [List.nil_append, List.singleton_append]
+        exact ⟨hg, f⟩
+      · intro h; simp at h ⊢; exact hok h
+      · intro c e h; simp at h ⊢; exact herr c e h
+    · rename_i r hr
+      refine ⟨by simp [AllGood], ?_, ?_⟩
+      · intro h; simp at h; subst h
+        unfold injectOne at hr
+        split at hr
+        · cases hr
+        · split at hr <;> cases hr
+      · intro c e _; simp
+
+/-- Accept-or-reject, message by message: on an in-range request and configuration, every VAA the handler pushes (also
+the ones pushed before a later message was rejected) pairs with its message, comes from the configured emitter, carries
+the requested target chain / sequence / nonce / set index un-wrapped, has an in-range body (so C04/C05 apply to it),
+and a payload the contract parser decodes back to the request; an accepted request produced one VAA per message and a
+rejected one strictly fewer. -/
+theorem c15_injected_good (cfg : Cfg) (req : Req) (hc : cfg.WF) (hr : req.WF) :
+    AllGood cfg req req.msgs (inject cfg req).1 ∧
+    ((inject cfg req).2 = .ok → (inject cfg req).1.length = req.msgs.length) ∧
+    (∀ c e, (inject cfg req).2 = .err c e → (inject cfg req).1.length < req.msgs.length) :=
+  injectLoop_good cfg req hc hr.1 hr.2.1 req.msgs hr.2.2
+
+/-- Every request is either rejected with a status or accepted; nothing else can happen. -/
+theorem c15_accept_or_reject (cfg : Cfg) (req : Req) :
+    (inject cfg req).2 = .ok ∨ ∃ c e, (inject cfg req).2 = .err c e := by
+  have := c15_no_panic [] cfg req
+  unfold inject
+  cases h : (injectFrom [] cfg req).2 with
+  | ok => exact Or.inl rfl
+  | err c e => exact Or.inr ⟨c, e, rfl⟩
+  | panic => exact (this h).elim
+
+/-- A message whose target chain does not fit the 16-bit wire field is rejected, never wrapped. -/
+theorem c15_target_chain_checked (cfg : Cfg) (req : Req) (m : Msg) (h : m.targetChain > 65535) :
+    ∃ e, injectOne cfg req m = .error (.err grpcUnknown e) := by
+  unfold injectOne; rw [if_pos h]; exact ⟨_, rfl⟩
+
+/-- Non-vacuity: a two-message request (fee update to chain 255, consistency level 255 to chain 65535) is accepted on a
+concrete configuration and yields two VAAs. -/
+def sampleCfg : Cfg := ⟨1, List.replicate 31 0 ++ [4]⟩
+def sampleReq : Req :=
+  { currentSetIndex := 3, timestamp := 1700000000,
+    msgs := [⟨2 ^ 64 - 1, 7, 255, .updateMessageFee sampleFee⟩, ⟨5, 2 ^ 32 - 1, 65535, .minConsistency 255⟩] }
+example : sampleCfg.WF ∧ (inject sampleCfg sampleReq).2 = .ok ∧ (inject sampleCfg sampleReq).1.length = 2 := by
+  refine ⟨by decide, by decide, by decide⟩
+
 end Whv.C15
